@@ -410,3 +410,128 @@ func vh_C11_encode() {
 	vAssert(vjDenotes(j, v), "json-denotes-the-same-data")
 	vReach("encode")
 }
+
+// ---- decode leg: JSON text -> (reference reader) -> Go values -> the real
+// decodeGoToSexpHelper / key-order restoration ----
+
+func vjToGo(j vjVal) interface{} {
+	switch j.k {
+	case vjNull:
+		return nil
+	case vjBool:
+		return j.b
+	case vjStr:
+		return j.s
+	case vjNum:
+		var n int64
+		neg := false
+		for i := 0; i < len(j.num); i++ {
+			c := j.num[i]
+			if c == '-' {
+				neg = true
+				continue
+			}
+			n = n*10 + int64(c-'0')
+		}
+		if neg {
+			n = -n
+		}
+		return n
+	case vjArr:
+		out := make([]interface{}, len(j.elems))
+		for i := range j.elems {
+			out[i] = vjToGo(j.elems[i])
+		}
+		return out
+	default:
+		m := map[string]interface{}{}
+		for i, k := range j.keys {
+			m[k] = vjToGo(j.elems[i])
+		}
+		return m
+	}
+}
+
+func vC11KeyName(k Sexp) string {
+	switch t := k.(type) {
+	case *SexpSymbol:
+		return t.name
+	case *SexpStr:
+		return t.S
+	}
+	return "?"
+}
+
+// vC11Same: decoded value equals the original (record type names, field
+// order, values; numbers by value).
+func vC11Same(a, b Sexp) bool {
+	switch x := a.(type) {
+	case *SexpHash:
+		y, ok := b.(*SexpHash)
+		if !ok || x.TypeName != y.TypeName || len(x.KeyOrder) != len(y.KeyOrder) {
+			return false
+		}
+		for i := range x.KeyOrder {
+			if vC11KeyName(x.KeyOrder[i]) != vC11KeyName(y.KeyOrder[i]) {
+				return false
+			}
+			va, ea := x.HashGet(nil, x.KeyOrder[i])
+			vb, eb := y.HashGet(nil, y.KeyOrder[i])
+			if ea != nil || eb != nil || !vC11Same(va, vb) {
+				return false
+			}
+		}
+		return true
+	case *SexpArray:
+		y, ok := b.(*SexpArray)
+		if !ok || len(x.Val) != len(y.Val) {
+			return false
+		}
+		for i := range x.Val {
+			if !vC11Same(x.Val[i], y.Val[i]) {
+				return false
+			}
+		}
+		return true
+	}
+	return vSexpEq(a, b)
+}
+
+// vh_C11_roundtrip: encode, read with the reference reader, decode with the
+// real decoder half, compare with the original - including field names that
+// sort before and after the key-order member.
+func vh_C11_roundtrip() {
+	env := vEnvs(1)[0]
+	sym := func(n string) Sexp { return env.MakeSymbol(n) }
+	names := [][]string{{"b", "a"}, {"zone", "name", "active"}, {"zz", "a"}, {"~k", "zKey", "m"}, {"x"}}[vChoice("names", 5)]
+	var kv []Sexp
+	for i, n := range names {
+		kv = append(kv, sym(n))
+		if i == 0 {
+			kv = append(kv, vC11Str("r"))
+		} else {
+			kv = append(kv, &SexpInt{Val: int64(i)})
+		}
+	}
+	h, err := MakeHash(kv, "hash", env)
+	if err != nil {
+		vAssert(false, "roundtrip-setup")
+		return
+	}
+	var v Sexp = h
+	switch vChoice("wrap", 3) {
+	case 1:
+		outer, _ := MakeHash([]Sexp{sym("zouter"), h, sym("first"), &SexpInt{Val: 9}}, "hash", env)
+		v = outer
+	case 2:
+		v = &SexpArray{Val: []Sexp{h, &SexpInt{Val: 1}}, Env: env}
+	}
+	j, ok := vjParse(SexpToJson(v))
+	vAssert(ok, "roundtrip-json-is-well-formed")
+	if !ok {
+		return
+	}
+	back := decodeGoToSexpHelper(vjToGo(j), 0, env, false)
+	vAssert(vC11Same(v, back), "roundtrip-decodes-to-an-equal-value")
+	vReach("roundtrip")
+}
